@@ -260,8 +260,16 @@ class Recorder:
         return self.call("more", lambda: self.backend.more(bytes(data), idx),
                          {"data": list(bytes(data)), "a": idx}, lambda r: {"ready": bool(r)})
 
-    def stream(self, fn):
-        return self.call("stream", fn, {}, lambda r: {})
+    def stream(self, fn, text: str = ""):
+        return self.call("stream", fn, {"data": list(text.encode()[:64])}, lambda r: {})
+
+    hooks_on = False  # the renderable's hooks are calls of the operation only while draw() runs
+
+    def hook(self, which: int):
+        """1 = _render_, 2 = _handle_interrupted_draw_, 3 = _finalize_render_data_"""
+        if not self.hooks_on:
+            return None
+        return self.call("hook", lambda: None, {"a": which}, lambda r: {})
 
 
 class _OsProxy:
@@ -315,7 +323,7 @@ class Stream:
             self.written.append(s)
             return self._real.write(s) if self._real else len(s)
 
-        return self._rec.stream(do)
+        return self._rec.stream(do, s)
 
     def flush(self):
         return self._rec.stream(lambda: self._real.flush() if self._real else None)
@@ -468,14 +476,16 @@ class VirtualTty:
 # --------------------------------------------------------------------------------------
 # driving the real library
 # --------------------------------------------------------------------------------------
-def reset_library(enabled: bool, swap: bool, qtmo_ticks: int) -> None:
-    """Library settings through the public API + cold caches."""
+def reset_library(enabled: bool, swap: bool, qtmo_ticks: int, term: dict | None = None) -> None:
+    """Library settings through the public API + cold caches + the process environment."""
     import term_image
     import term_image.utils as U
     from term_image.image import BlockImage, ITerm2Image, KittyImage
 
-    for var in ("TERM_PROGRAM", "TERM_PROGRAM_VERSION"):
+    for var, key in (("TERM_PROGRAM", "envName"), ("TERM_PROGRAM_VERSION", "envVer")):
         _os.environ.pop(var, None)
+        if term and term.get(key):
+            _os.environ[var] = bytes(term[key]).decode()
     term_image.set_query_timeout(qtmo_ticks / TICK_HZ)
     (term_image.enable_queries if enabled else term_image.disable_queries)()
     (term_image.enable_win_size_swap if swap else term_image.disable_win_size_swap)()
@@ -487,6 +497,7 @@ def reset_library(enabled: bool, swap: bool, qtmo_ticks: int) -> None:
 
 
 _SPACE = None
+CURRENT: dict = {"rec": None}
 
 
 def _space_cls():
@@ -496,14 +507,29 @@ def _space_cls():
         from term_image.renderable import Frame, Renderable
 
         class Space(Renderable):
-            def __init__(self):
-                super().__init__(1, 1)
+            """2x1 blank renderable (1 frame, or `frames` frames of 1 ms) whose hooks are calls of
+            the operation: each goes through the recorder and can therefore be made to raise."""
+
+            def __init__(self, frames=1):
+                super().__init__(frames, 1)
 
             def _get_render_size_(self):
                 return Size(2, 1)
 
             def _render_(self, render_data, render_args):
-                return Frame(0, 1, Size(2, 1), "  ")
+                CURRENT["rec"].hook(1)
+                data = render_data[Renderable]
+                return Frame(data.frame_offset, 1, Size(2, 1), "  ")
+
+            def _handle_interrupted_draw_(self, render_data, render_args, output):
+                CURRENT["rec"].hook(2)
+
+            @classmethod
+            def _finalize_render_data_(cls, render_data):
+                try:
+                    CURRENT["rec"].hook(3)
+                finally:
+                    super()._finalize_render_data_(render_data)
 
         _SPACE = Space
     return _SPACE
@@ -560,7 +586,14 @@ def run_op(rec: Recorder, op: dict) -> dict:
             r = U.read_tty(timeout=_timeout(op["tmo"]), min=op["min"], echo=op["echo"], **kw)
             out.update(rb=list(r or b""), rnone=r is None)
         elif name == "draw":
-            _space_cls()().draw(hide_cursor=op["hide"], echo_input=op["echo"])
+            CURRENT["rec"] = rec
+            animated = op["nbody"] < 0
+            space = _space_cls()(2 if animated else 1)
+            rec.hooks_on = True
+            try:
+                space.draw(hide_cursor=op["hide"], echo_input=op["echo"], animate=animated, loops=1)
+            finally:
+                rec.hooks_on = False  # a later RenderData.__del__ is not part of the call
         else:
             raise ValueError(name)
     except Hang:
@@ -592,7 +625,7 @@ def run_virtual(scn: dict, fault: dict | None = None) -> dict:
     longest = max([scn["tmo"], op["tmo"]] + [b["delay"] for s in scn["sched"] for b in s])
     dev.time_limit = 8 * longest + 64
     install(rec, FAKE_FD)
-    reset_library(scn["enabled"], scn["swap"], scn["tmo"])
+    reset_library(scn["enabled"], scn["swap"], scn["tmo"], scn.get("term"))
     old_stdout = sys.stdout
     stream = None
     if op["name"] == "draw":
